@@ -30,7 +30,8 @@ class Peer:
         self.tail = float(config.get("tail", 0) or 0)          # every other row: this fraction of the largest weight
         self.y_as = config.get("y_as", "matrix")
         self.log = []          # ('fit', fid, X, Y, params) / ('predict', fid, newdata, weights)
-        self.forests = []
+        self.nforests = 0      # (no reference to a forest object is kept here: like an rpy2 proxy, it dies with its last
+                               #  Python reference, and its address may be used again)
         self.counts = {"fit": 0, "predict": 0}
         self.armed = {}        # 'fit'/'predict' -> message number (1-based, counted from arming) that fails
         self.since = {"fit": 0, "predict": 0}
@@ -65,8 +66,8 @@ class Peer:
             X = X.reshape(-1, 1)
         if Y.ndim == 1:
             Y = Y.reshape(-1, 1)
-        f = Forest(len(self.forests), X, Y, dict(params))
-        self.forests.append(f)
+        f = Forest(self.nforests, X, Y, dict(params))
+        self.nforests += 1
         self.log.append(("fit", f.fid, X.copy(), Y.copy(), dict(params)))
         return f
 
